@@ -15,7 +15,7 @@ AVAIL = os.cpu_count() or 16
 
 MAPS = [lambda r: "M:%d:%d" % (r.choice([1, 2, 3, -1, 5]), r.randrange(-3, 8)), lambda r: "Mm:%d" % r.choice([2, 3, 5, 7])]
 FILS = [lambda r: "F:%d:%d" % ((lambda m: (m, r.randrange(m)))(r.choice([2, 3, 4, 5]))),
-        lambda r: "Fl:%d" % r.randrange(-5, 30), lambda r: "Fa"]
+        lambda r: "Fl:%d" % r.randrange(-5, 30), lambda r: "Fg:%d" % r.randrange(-5, 45), lambda r: "Fa"]
 FLATS = [lambda r: "X:%d:%d" % (r.choice([0, 1, 2, 3]), r.choice([1, 10, 100])), lambda r: "Xm:%d" % r.choice([2, 3, 4])]
 FMS = [lambda r: "O:%d:%d:%d:%d" % ((lambda m: (m, r.randrange(m), r.choice([1, 2, -1]), r.randrange(0, 5)))(r.choice([2, 3, 4])))]
 
@@ -135,7 +135,10 @@ def full_log_case(line):
 
 
 def run_bin(path, args, lines, timeout=3000):
-    p = subprocess.run([path] + args, input="\n".join(lines) + "\n", stdout=subprocess.PIPE,
+    cmd = [path] + args
+    if path == DRIVER:
+        cmd = ["sh", "-c", "ulimit -s unlimited 2>/dev/null || ulimit -s 1000000 2>/dev/null; exec \"$0\" \"$@\"", path] + args
+    p = subprocess.run(cmd, input="\n".join(lines) + "\n", stdout=subprocess.PIPE,
                        stderr=subprocess.PIPE, text=True, env=ENV, timeout=timeout)
     return p.returncode, p.stdout.split("\n")[:-1], p.stderr
 
